@@ -84,7 +84,7 @@ def case_pwl_fn(**p):
   (out,) = tr.sym_run(*args)
   case.meta.update(validation_points=done, validation_mismatch=mism, ops=tr.ops_seen, stubs=sym.ctx().stubs, nodes=tr.n_nodes)
   omin, omax = Fraction(kw['keypoint_output_min']), Fraction(kw['keypoint_output_max'])
-  tmo = p.get('timeout', 90)
+  tmo = p.get('timeout', 60)
   replay = dict(fn='pwl', params=p)
   mi = kw['missing_input_value']
   X = np.broadcast_to(x, (B, p['units'])) if x.shape[1] == 1 else x
@@ -338,7 +338,7 @@ def cases(tier, seed):
   add('case_cdf_fn', dim=4, nk=2, units=2, activation='relu6', reduction='mean', sparsity=2, scaling_shape='per_fn')
   add('case_cdf_fn', dim=2, nk=2, units=2, activation='sigmoid', reduction='none', scaling_shape='full', exp_mult=0.5)
   add('case_cdf_fn', dim=3, nk=2, units=1, activation='relu6', reduction='mean', scaling_shape=None)
-  add('case_cdf_fn', dim=2, nk=3, units=1, activation='relu6', reduction='mean', exp_mult=-1.0)
+  add('case_cdf_fn', dim=2, nk=3, units=1, activation='relu6', reduction='mean', exp_mult=-1.0, required=False, timeout=45)
   if tier == 'thorough':
     add('case_pwl_fn', nk=5, units=2, mono='increasing', clamp_min=True, clamp_max=True, per_unit_input=True, required=False, timeout=600)
     add('case_cdf_layer', dim=4, nk=3, units=4, activation='sigmoid', reduction='mean', sparsity=2, required=False, timeout=600)
